@@ -33,6 +33,8 @@ CLAIMED["C03"]=("no operator-state gate on the exit path; three-index symmetry a
   "call-graph reachability (negative who-may-call), sibling agreement of key constructors, structured-dominance facts, effect-derived module order", "4/C03")
 CLAIMED["C05"]=("value formula amount*price/10^(asset+price decimals) and its operand wiring incl. comma-ok lookups of the price and decimals maps; per operator reset-first, self/total assigned, active value and AVS accumulator only under self >= AVS minimum; asset filter = the AVS's supported assets; cache-context discipline of the recompute; epoch hook fan-out with error skip and the `>= start-1` tracking predicate; opt-in creates / opt-out deletes / not-opted-in reads zero; AVS/operator role arguments not swapped",
   "dataflow-shape and comparison-class rules + structured-dominance facts over type-checked AST; cache-context typestate; role-typed argument matching over entry-reachable calls", "4/C05")
+CLAIMED["C20"]=("guard dominance at every write of the AVS registry, task counter, task, result, challenge and BLS-key families: registry uniqueness guards per arm, opt-in guards incl. self value >= AVS minimum, +1 task counter drawn only at task creation, common/phase-one/phase-two result guards with the window comparison classes and argument identity between guards and written key, challenge guards and uniqueness key, epoch-end selection predicate / grouping / signer lists / one write per group, who-may-write and who-may-call of the setters, key-constructor role order",
+  "structured-dominance facts with call-outcome and comparison normal forms over type-checked AST; store effect summaries and call graph for the writer/caller sets", "4/C20")
 NA={}
 def main():
     checks=[]
